@@ -15,7 +15,8 @@ _CORE = [_R + f for f in (
 
 HARNESS = {
     "c16_psi": {"src": ["@VERIF@/harness/c16_psi.c", _T + "upipe_ts_psi_merge.c", _T + "upipe_ts_psi_split.c", _T + "upipe_ts_psi_join.c"]
-                       + _CORE + [_E + "vmock_upump.c", _E + "simfd.c"]},
+                       + [((f, ["-Dmalloc=vf_malloc"]) if f.endswith(("ubuf_block_mem.c", "ubuf_mem_common.c")) else f) for f in _CORE]
+                       + [_E + "vmock_upump.c", _E + "simfd.c"]},
 }
 
 
@@ -33,6 +34,8 @@ def _c16_jobs(tier):
         jobs += _sharded(M + ["--maxsec", 3, "--faults", "n", "--segs", "0", "--stuff", "2"], 16, dl)
         # <=2 sections: every fault (discontinuity / missing payload on every payload, 7 header corruptions on every section)
         jobs += _sharded(M + ["--maxsec", 2, "--faults", "dm", "--segs", "0", "--stuff", "2"], 6, dl)
+        # refused memory while a payload is handled (1st..3rd request), <=2 sections, plain and segmented payloads
+        jobs += _sharded(M + ["--maxsec", 2, "--faults", "a", "--segs", "0,2", "--stuff", "2"], 6, dl)
         jobs += _sharded(M + ["--maxsec", 2, "--contents", "dh", "--faults", "c", "--segs", "0", "--stuff", "2"], 8, dl)
         # <=2 sections fault-free with segmented payloads and other stuffing sizes
         jobs += _sharded(M + ["--maxsec", 2, "--faults", "n", "--segs", "1,2", "--stuff", "1,4"], 2, dl)
@@ -60,8 +63,11 @@ def _c16_jobs(tier):
     J = ["--mode", "join", "--maxin", 4]
     if q:
         jobs.append(("c16_psi", J + ["--depth", 7, "--deadline", dl]))
+        # inputs whose definition arrives while a memory request is refused (the joiner rebuilds its own definition)
+        jobs += _sharded(J + ["--join-faults", 1, "--depth", 6], 2, dl)
     else:
         jobs += _sharded(J + ["--depth", 10], 16, dl)
+        jobs += _sharded(J + ["--join-faults", 1, "--depth", 8], 8, dl)
     return jobs
 
 
